@@ -3,6 +3,7 @@ case streams, one cached evaluation of implementation + model + oracles per (tre
 known-finding classes and the verdict logic of DESIGN.md section 2.5."""
 import glob
 import hashlib
+import re
 import json
 import os
 import pickle
@@ -256,7 +257,7 @@ def evaluate_cases(cs):
         k = kmap.get(i)
         rec = {"stream": c[0], "w": c[1], "tab": c[2], "reorder": c[3], "src": c[4], "o": o}
         if k is not None:
-            rec["k"] = {x: k.get(x) for x in ("impl", "model", "class_eq", "doc_eq", "out_eq", "cnt_eq", "impl_cnt", "model_cnt", "model_wfc", "model_size", "model_swfc")}
+            rec["k"] = {x: k.get(x) for x in ("impl", "model", "class_eq", "doc_eq", "out_eq", "cnt_eq", "impl_cnt", "model_cnt", "model_wfc", "model_size", "model_swfc", "kinds")}
             if k.get("out_eq") is False:
                 rec["model_out"] = k["model_out"]
                 rec["impl_out"] = k["impl_out"]
@@ -397,7 +398,34 @@ def distribution(recs):
     for r in recs:
         c = r["o"].get("class", "?")
         cls[c] = cls.get(c, 0) + 1
-    return {"by_stream": streams, "by_class": cls}
+    # which syntax kinds the compared trees contained: every converter of the model is keyed by a kind, so this is the
+    # coverage of the converters by the correspondence (K2/K5/K7)
+    seen = {}
+    for r in recs:
+        k = r.get("k") or {}
+        if k.get("impl") == "ok" and k.get("model") == "ok":
+            for x in k.get("kinds") or []:
+                seen[x] = seen.get(x, 0) + 1
+    names = kind_names()
+    never = [names[i] for i in range(len(names)) if i not in seen and names[i] not in ("KEnd", "KError")]
+    rare = sorted(((names[i], n) for i, n in seen.items() if i < len(names) and n < 5), key=lambda t: t[1])
+    return {"by_stream": streams, "by_class": cls,
+            "syntax_kinds_in_compared_trees": {"distinct": len(seen), "of": len(names), "never_seen": never, "seen_in_fewer_than_5_cases": rare}}
+
+
+_KIND_NAMES = None
+
+
+def kind_names():
+    global _KIND_NAMES
+    if _KIND_NAMES is None:
+        try:
+            txt = open(os.path.join(COQ, "gen", "Kind.v")).read()
+            m = re.search(r"Definition all_kinds : list kind := \[(.*?)\]\.", txt, re.S)
+            _KIND_NAMES = [x.strip() for x in m.group(1).split(";")] if m else []
+        except OSError:
+            _KIND_NAMES = []
+    return _KIND_NAMES
 
 
 # ----------------------------------------------------------------------------- generic driver
